@@ -556,6 +556,10 @@ func checkKeepLexical(c *Case, out string) (sig, obs, exp string, skips []string
 				if !ok || !a.hasVal || a.val == "" {
 					continue
 				}
+				if ia.quoted && !a.quoted && c.Registry == "real" && !allowKnown && strings.HasPrefix(a.name, "on") {
+					skips = append(skips, "c16-keepquotes:N08-event-attr-with-real-js-minifier-exempted")
+					continue
+				}
 				if ia.quoted && !a.quoted {
 					return "keep-quotes:quotes-removed:" + attrClass(a.name), a.name + "=" + a.val, a.name + "=\"…\" (quoted as in the input)", skips
 				}
